@@ -492,6 +492,35 @@ def replay(path):
         return 1 if prob else 0
     x = [Fraction(v) for v in r["xyz"]]
     x0 = [Fraction(v) for v in r["special_site"]]
+    def warm_up():
+        # the run that found the failure had used other settings before in the same process: use the settings that share the
+        # name or the table number with this one (state kept between calls, e.g. a cache keyed by a non-unique name)
+        sib = [g for g in sgs.SpaceGroupList
+               if g is not sg and (g.short_name == sg.short_name or g.pdb_name == sg.pdb_name or g.number % 1000 == sg.number % 1000)]
+        try:
+            sst = strata.all_strata(sib)
+        except Exception:  # noqa: BLE001
+            sst = {}
+        for g in sib:
+            sites = [x, x0] + [[strata.frac(p) for p in st_["xyz"]] for st_ in (sst.get(g.number) or [])]
+            for site in sites:
+                try:
+                    GeneratorSite(g, [float(v) for v in site])
+                except Exception:  # noqa: BLE001
+                    pass
+
+    if os.environ.get("VERIF_C05_WARMUP"):
+        warm_up()
     prob, _, _ = site_checks(CK, sg, r["variant"], x0, x, GeneratorSite)
+    if not prob and not os.environ.get("VERIF_C05_WARMUP"):
+        # again in a fresh process, after the sibling settings
+        import subprocess
+
+        p_ = subprocess.run([os.path.join(common.VERIF, "check"), "C05", "--replay", path], env=dict(os.environ, VERIF_C05_WARMUP="1"),
+                            capture_output=True, text=True)
+        if p_.returncode == 1:
+            print(p_.stdout.strip().split("\n")[-1])
+            print("(fails only after settings with the same name / number were used earlier in the same process)")
+            return 1
     print("problem:", prob)
     return 1 if prob else 0
